@@ -112,7 +112,27 @@ namespace Clipper2Lib {
     if ((res3 > 0) == (res4 > 0)) return false;
 
     // segments must intersect to get here
-    return GetSegmentIntersectPt(p1, p2, p3, p4, ip);
+    if (!GetSegmentIntersectPt(p1, p2, p3, p4, ip)) return false;
+    // p3-p4 is an (axis-parallel) edge of the clipping rectangle. The computed
+    // intersection is truncated to integers and can be one unit off that edge,
+    // or one unit beyond its end: put it onto the edge.
+    if (p3.x == p4.x)
+    {
+      const int64_t lo = (p3.y < p4.y) ? p3.y : p4.y;
+      const int64_t hi = (p3.y < p4.y) ? p4.y : p3.y;
+      ip.x = p3.x;
+      if (ip.y < lo) ip.y = lo;
+      else if (ip.y > hi) ip.y = hi;
+    }
+    else if (p3.y == p4.y)
+    {
+      const int64_t lo = (p3.x < p4.x) ? p3.x : p4.x;
+      const int64_t hi = (p3.x < p4.x) ? p4.x : p3.x;
+      ip.y = p3.y;
+      if (ip.x < lo) ip.x = lo;
+      else if (ip.x > hi) ip.x = hi;
+    }
+    return true;
   }
 
   inline bool GetIntersection(const Path64& rectPath,
